@@ -44,7 +44,6 @@ Variable zl : bool.
 Hypothesis HZ : has flags F_ZLIB = zl.
 Hypothesis HSB : has flags F_STOPBB = false.
 Hypothesis HNW : has flags F_NONWRAP = true.
-Hypothesis HMORE : has flags F_MORE = true.
 Variables (cmf flg A : N).
 Hypothesis Hcmf : cmf < 256.
 Hypothesis Hflg : flg < 256.
@@ -65,6 +64,8 @@ Notation ShR := (InflateStoredChunks.ShR zl cmf flg A B extra p0 K).
 Notation Core := (InflateStoredChunks.Core zl cmf flg A B extra p0 K).
 
 Variables (in_buf fut : list N).
+(* more input is announced - or none is needed, this slice being all that is left to come *)
+Hypothesis HMORE : has flags F_MORE = true \/ fut = [].
 Variables (omax mask pstart AL : N).  (* pstart: the output position this call started at; AL: the buffer's length *)
 Hypothesis HAL : omax <= AL.
 Definition in_len : N := N.of_nat (length in_buf).
@@ -117,13 +118,13 @@ Ltac mu_tac :=
 Lemma length_outpre c : p0 <= pos c -> N.of_nat (length (outpre c)) = pos c - p0.
 Proof. intros H. unfold outpre. apply length_aget_list. Qed.
 
-Lemma eoi : end_of_input flags = NeedsMoreInput.
-Proof. unfold end_of_input. rewrite HMORE. reflexivity. Qed.
+Lemma eoi : fut <> [] -> end_of_input flags = NeedsMoreInput.
+Proof. intros Hf. unfold end_of_input. destruct HMORE as [H|H]; [rewrite H; reflexivity|contradiction]. Qed.
 
 Lemma suspended c : Inv c -> inp c = [] -> fut <> [] -> bb c = 0 -> st c <> Start -> st c <> DoneForever ->
   StepOk c (Ret (AEnd (end_of_input flags), c)).
 Proof.
-  intros HI E Hf Hb H1 H2. unfold StepOk, Post. rewrite eoi. split; [exact HI|]. right. left. repeat split; assumption.
+  intros HI E Hf Hb H1 H2. unfold StepOk, Post. rewrite (eoi Hf). split; [exact HI|]. right. left. repeat split; assumption.
 Qed.
 
 Ltac keep E Hck Hza :=
@@ -534,7 +535,6 @@ Variable zl : bool.
 Hypothesis HZ : has flags F_ZLIB = zl.
 Hypothesis HSB : has flags F_STOPBB = false.
 Hypothesis HNW : has flags F_NONWRAP = true.
-Hypothesis HMORE : has flags F_MORE = true.
 Variables (cmf flg A : N).
 Hypothesis Hcmf : cmf < 256.
 Hypothesis Hflg : flg < 256.
@@ -621,11 +621,12 @@ Lemma ret_ex {T} (X : res T) (Q : T -> Prop) :
   match X with Ret r => Q r | _ => False end -> exists r, X = Ret r /\ Q r.
 Proof. destruct X as [r| |]; [intros H; exists r; split; [reflexivity|exact H]|contradiction|contradiction]. Qed.
 
-Definition CallPost (input fut : list N) (o : arr) (p : N) (res : call_result) : Prop :=
+Definition CallPost (input fut : list N) (o : arr) (p budget : N) (res : call_result) : Prop :=
   alen (cr_buf res) = alen o /\ cr_in res <= N.of_nat (length input) /\
   (((cr_status res = NeedsMoreInput \/ cr_status res = HasMoreOutput) /\
     DI (cr_dec res) (skipn (N.to_nat (cr_in res)) input ++ fut) (cr_buf res) (p + cr_out res) /\
-    (cr_status res = NeedsMoreInput -> fut <> [])) \/
+    (cr_status res = NeedsMoreInput -> fut <> [] /\ cr_in res = N.of_nat (length input)) /\
+    (cr_status res = HasMoreOutput -> p + cr_out res = N.min (N.min (p + budget) USIZE_MAX) (alen o))) \/
    (cr_status res = fin /\
     cr_in res + N.of_nat (length extra) = N.of_nat (length input) + N.of_nat (length fut) /\
     p + cr_out res = p0 + N.of_nat (length PB) /\
@@ -640,10 +641,11 @@ Qed.
 
 (* one call: any input, any budget - it returns, and what it returns is described by CallPost *)
 Lemma call_total d input fut o p budget :
+  has flags F_MORE = true \/ fut = [] ->
   DI d (input ++ fut) o p -> alen o <= USIZE_MAX -> N.of_nat (length input) < 2 ^ 57 ->
-  exists res, decompress d input o p budget flags = Ret res /\ CallPost input fut o p res.
+  exists res, decompress d input o p budget flags = Ret res /\ CallPost input fut o p budget res.
 Proof.
-  intros (HC & HK & Hpa) Hrep Hshort. apply ret_ex.
+  intros HMORE (HC & HK & Hpa) Hrep Hshort. apply ret_ex.
   pose proof HC as (Hp0 & Hpm & _).
   unfold decompress. rewrite HNW.
   change (N.land ((USIZE_MAX + 1) mod U64) USIZE_MAX =? 0) with true.
@@ -658,7 +660,7 @@ Proof.
   assert (Hmu : (mu omax (cfg_of d input o p) < 2 ^ 62)%nat).
   { unfold mu, cfg_of. cbn [mk inp]. apply fuel_enough; [|exact Hshort].
     unfold rank. cbn [mk st pos]. destruct (d_state d); try lia. destruct (omax - p =? 0); lia. }
-  destruct (run_total flags zl HZ HSB HNW HMORE cmf flg A Hcmf Hflg Hvalid HA B HB extra p0 (Kof d) input fut
+  destruct (run_total flags zl HZ HSB HNW cmf flg A Hcmf Hflg Hvalid HA B HB extra p0 (Kof d) input fut HMORE
                 omax USIZE_MAX p (alen o) Hom1 _ HI Hmu) as (s & c & Hrun & HP).
   unfold in_len in Hrun. rewrite Hrun. cbn [bind]. clear Hrun.
   unfold Post in HP. destruct HP as (HIc & Hcase).
@@ -721,7 +723,8 @@ Proof.
     cbv iota.
     unfold csub. replace (pos c <=? omax) with true by (symmetry; apply N.leb_le; lia). cbn [bind].
     set (S := match st c with ReadAdler32 => NeedsMoreInput | _ => if omax - pos c =? 0 then HasMoreOutput else NeedsMoreInput end).
-    assert (HS' : S = NeedsMoreInput \/ S = HasMoreOutput) by (unfold S; destruct (st c); destruct (omax - pos c =? 0); auto).
+    assert (HS' : S = NeedsMoreInput \/ (S = HasMoreOutput /\ pos c = omax)).
+    { unfold S. destruct (omax - pos c =? 0) eqn:Ez; [apply N.eqb_eq in Ez; destruct (st c); auto; right; split; try reflexivity; lia|destruct (st c); auto]. }
     pose proof (ShR_nb _ _ _ _ _ _ _ _ _ HS Hs1) as Hnb.
     unfold guard. replace (nb c <? 64) with true by (symmetry; apply N.ltb_lt; lia). cbn [bind].
     replace (p <=? pos c) with true by (symmetry; apply N.leb_le; lia). cbn [bind].
@@ -731,11 +734,12 @@ Proof.
     rewrite (Hck Hs1), Hbb. change (N.land 0 (N.ones (nb c))) with 0.
     assert (Hil : ileft c = 0) by (rewrite Hi, Ei; reflexivity).
     specialize (Hdone Hs1 Hbb).
-    destruct HS' as [HS'|HS']; rewrite HS'; cbn [status_code]; cbv iota;
+    destruct HS' as [HS'|[HS' Hfull]]; rewrite HS'; cbn [status_code]; cbv iota;
       [change (0 <=? 1)%Z with true|change (0 <=? 2)%Z with true]; rewrite andb_true_r; cbn [bind];
       destruct need eqn:ENA; cbv beta iota; unfold CallPost; cbn [cr_status cr_in cr_out cr_buf cr_dec];
       (split; [exact Homc|]); (split; [lia|]); left; rewrite Hskp;
-      (split; [auto|]); (split; [apply Hdone; exact Hprog|]); intros _; try exact Hfut; try discriminate.
+      (split; [auto|]); (split; [apply Hdone; exact Hprog|]);
+      (split; [intros X; first [discriminate X|split; [exact Hfut|lia]]|intros X; try discriminate X; fold omax; lia]).
   - (* the budget is used up in the middle of a block *)
     unfold InflateStoredChunks.ShR in HS. rewrite Est in HS.
     pose proof HS as (Hn & Hb & _).
@@ -752,11 +756,11 @@ Proof.
     specialize (Hdone Hs1 Hb). rewrite Hn in Hdone.
     destruct need eqn:ENA; cbv beta iota; unfold CallPost; cbn [cr_status cr_in cr_out cr_buf cr_dec];
       (split; [exact Homc|]); (split; [lia|]); left; rewrite Hskp;
-      (split; [auto|]); (split; [apply Hdone; exact Hprog|]); intros X; discriminate X.
+      (split; [auto|]); (split; [apply Hdone; exact Hprog|]); (split; [intros X; discriminate X|intros _; fold omax; lia]).
 Qed.
 
 (* every schedule: it returns, and what can be said after its last call *)
-Theorem feed2_total : forall sched d o p pending used last later,
+Theorem feed2_total : has flags F_MORE = true -> forall sched d o p pending used last later,
   DI d (pending ++ concat (map fst sched) ++ later) o p -> alen o <= USIZE_MAX ->
   N.of_nat (length (pending ++ concat (map fst sched))) < 2 ^ 57 ->
   (last = HasMoreOutput \/ (last = NeedsMoreInput /\ concat (map fst sched) ++ later <> [])) ->
@@ -769,7 +773,7 @@ Theorem feed2_total : forall sched d o p pending used last later,
    (s = fin /\ p' = p0 + N.of_nat (length PB) /\
     total + N.of_nat (length extra) = used + N.of_nat (length (pending ++ concat (map fst sched) ++ later)))).
 Proof.
-  induction sched as [|[piece budget] more IH]; intros d o p pending used last later HD Hrep Hshort Hlast.
+  intros HMORE. induction sched as [|[piece budget] more IH]; intros d o p pending used last later HD Hrep Hshort Hlast.
   - cbn [feed2]. exists last, used, o, p. split; [reflexivity|]. cbn [map concat app] in *.
     destruct (DI_prefix _ _ _ _ HD) as (H1 & H2 & H3).
     split; [exact H1|]. split; [exact H2|]. split; [exact H3|]. split; [lia|].
@@ -779,11 +783,11 @@ Proof.
       by (rewrite <- !app_assoc; reflexivity).
     rewrite Hrem in HD.
     assert (Hsh1 : N.of_nat (length (pending ++ piece)) < 2 ^ 57) by (rewrite !app_length in *; lia).
-    destruct (call_total d (pending ++ piece) (concat (map fst more) ++ later) o p budget HD Hrep Hsh1) as (r & Ed & HCP).
-    rewrite Ed. destruct HCP as (Hal & Hle & [(Hs & HD' & Hnmi)|(Hs & Hin & Hp & Hout)]).
+    destruct (call_total d (pending ++ piece) (concat (map fst more) ++ later) o p budget (or_introl HMORE) HD Hrep Hsh1) as (r & Ed & HCP).
+    rewrite Ed. destruct HCP as (Hal & Hle & [(Hs & HD' & Hnmi & _)|(Hs & Hin & Hp & Hout)]).
     + rewrite <- Hal in Hrep.
       assert (Hlast' : cr_status r = HasMoreOutput \/ (cr_status r = NeedsMoreInput /\ concat (map fst more) ++ later <> [])).
-      { destruct Hs as [Hs|Hs]; [right; split; [exact Hs|exact (Hnmi Hs)]|left; exact Hs]. }
+      { destruct Hs as [Hs|Hs]; [right; split; [exact Hs|exact (proj1 (Hnmi Hs))]|left; exact Hs]. }
       assert (Hsk : N.of_nat (length (skipn (N.to_nat (cr_in r)) (pending ++ piece))) + cr_in r = N.of_nat (length (pending ++ piece)))
         by (rewrite skipn_length; lia).
       assert (Hsh2 : N.of_nat (length (skipn (N.to_nat (cr_in r)) (pending ++ piece) ++ concat (map fst more))) < 2 ^ 57)
@@ -847,7 +851,7 @@ Proof.
   pose proof (DI_init flags true cmf flg A B extra o HB) as HD. rewrite <- Hinput, <- Hcat in HD.
   assert (Hlast : NeedsMoreInput = HasMoreOutput \/ (NeedsMoreInput = NeedsMoreInput /\ concat (map fst sched) ++ later <> [])).
   { right. split; [reflexivity|]. rewrite Hcat. unfold stream. discriminate. }
-  destruct (feed2_total flags true HZ HSB HNW HMORE cmf flg A Hcmf Hflg Hvalid HA B HB extra 0 sched dec_default o 0 [] 0
+  destruct (feed2_total flags true HZ HSB HNW cmf flg A Hcmf Hflg Hvalid HA B HB extra 0 HMORE sched dec_default o 0 [] 0
               NeedsMoreInput later HD Hrep Hshort Hlast) as (s & total & o' & p' & Hf & H1 & H2 & H3 & H4 & H5).
   exists s, total, o', p'. split; [exact Hf|].
   cbn [app] in H4, H5. rewrite N.sub_0_r in H3. rewrite <- Hdata in *.
@@ -883,7 +887,7 @@ Proof.
   assert (Hlast : NeedsMoreInput = HasMoreOutput \/ (NeedsMoreInput = NeedsMoreInput /\ concat (map fst sched) ++ later <> [])).
   { right. split; [reflexivity|]. rewrite Hcat. unfold stream. destruct (shapeB_split B HB) as (f & ch & bs' & EB & _).
     rewrite <- (enc_of chunks last). fold B. rewrite EB. unfold enc. cbn [map concat fst snd]. unfold stored_block. discriminate. }
-  destruct (feed2_total flags false HZ HSB HNW HMORE 120 1 0 ltac:(lia) ltac:(lia) ltac:(reflexivity) ltac:(cbn; lia) B HB extra 0
+  destruct (feed2_total flags false HZ HSB HNW 120 1 0 ltac:(lia) ltac:(lia) ltac:(reflexivity) ltac:(cbn; lia) B HB extra 0 HMORE
               sched dec_default o 0 [] 0 NeedsMoreInput later HD Hrep Hshort Hlast) as (s & total & o' & p' & Hf & H1 & H2 & H3 & H4 & H5).
   exists s, total, o', p'. split; [exact Hf|].
   cbn [app] in H4, H5. rewrite N.sub_0_r in H3. rewrite <- Hdata in *.
